@@ -339,6 +339,24 @@ def run(tier, seed):
         def around(j, k):
             return [m5lb.event_at(outs[j], i) for i in range(max(0, k - 8), k + 1)] if k >= 0 else []
         bad_doct = [k for k, v in doct.items() if v]
+        # concurrent form (real scheduler): probe results of the targets of one balancer applied together; afterwards
+        # the rotation must be exactly the healthy targets (the acceptor's KRotation rule read atomically)
+        rounds = 300 if tier == "quick" else 5000
+        rc_r, out_r = go_test(work, ["common_test.go", "c09_race_test.go"],
+                              "^TestVerifC09Race$", {"VERIF_OUT": work.path("c09race.jsonl"), "VERIF_ROUNDS": str(rounds),
+                                                     "VERIF_SEED": str(seed)}, timeout=900, synctest=False, extra_args=None) \
+            if harness_ok else (1, "")
+        race_rows = read_jsonl(work.path("c09race.jsonl")) if rc_r == 0 and os.path.exists(work.path("c09race.jsonl")) else []
+        race_bad = [r for r in race_rows if r["healthy_targets"] != r["rotation"]]
+        res.coverage["rotation_race_stress"] = {"rounds": len(race_rows), "targets": 8, "rounds_with_rotation_equal_healthy": len(race_rows) - len(race_bad)}
+        if harness_ok and rc_r != 0:
+            harness_ok = False
+            gout = out_r
+        if race_bad and not mon_fail:
+            res.violation("stress", {"property": "C09", "what": "after concurrently applied probe results the rotation is not the set of healthy targets",
+                                     "observed": race_bad[:3], "seed": seed, "tier": tier,
+                                     "replay": "go test -run TestVerifC09Race (harness/c09_race_test.go), real scheduler"})
+            return res.finish()
         if mon_fail:
             j, which, k = mon_fail[0]
             res.violation("monitor-%d" % j, payload(j, "monitor %s false on an implementation trace: a pick that is not the round-robin "
